@@ -274,7 +274,7 @@ static void item(uint64_t it)
 	} else {
 		MC_COUNT("oracle_method_filter_allowed");
 		int got_node = got_cb >= 0 ? got_cb / 10 : -1;
-		if (v.cb >= 0) MC_COUNT(v.cb % 10 == 9 ? "oracle_route_gencb" : "oracle_route_path_cb"); else MC_COUNT("oracle_route_404");
+		if (v.cb >= 0 && v.cb % 10 == 9) MC_COUNT("oracle_route_gencb"); else if (v.cb >= 0) MC_COUNT("oracle_route_path_cb"); else MC_COUNT("oracle_route_404");
 		if (v.node) MC_COUNT("oracle_vhost_selected"); else MC_COUNT("oracle_vhost_root");
 		if (got_cb != v.cb || got_status != v.status) {
 			if (got_cb >= 0 && v.cb >= 0 && got_node != v.node) {
